@@ -604,6 +604,9 @@ def _native_override(self, interp, f, args, kw):
         if args or set(kw) - {"filename", "write_concern"}:
             raise Unsupported("BufferedJSONAttrDict arguments")
         return SDoc(kw.get("filename"), kw.get("write_concern", False))
+    if f == BufferedJSONAttrDict.backend_is_buffered and not args and not kw:
+        # whether the session is inside signac.buffered() is environment state no function under contract controls
+        return SBool(z3.Bool("the_session_is_in_buffered_mode"))
     if f is copy.deepcopy and len(args) == 1 and isinstance(args[0], SSP):
         interp.ex.assumptions_used.add("copy.deepcopy returns an equal, unaliased value")
         return SSP(args[0].e)
